@@ -21,16 +21,28 @@ def _truthy_const(repo, modname, e):
     return None
 
 
+class _Expr(str):
+    """a replacement that is not a constant (shown as source text)"""
+
+
 def falsy_default_sites(repo, mod):
     """[(qualname, node, parameter, default value)]"""
     out = []
     for qn, fn in mod.functions.items():
         params = {a.arg for a in fn.args.posonlyargs + fn.args.args + fn.args.kwonlyargs} - {"self", "cls"}
+        pos = fn.args.posonlyargs + fn.args.args
+        none_default = {a.arg for a, d in zip(pos[len(pos) - len(fn.args.defaults):], fn.args.defaults) if isinstance(d, ast.Constant) and d.value is None}
+        none_default |= {a.arg for a, d in zip(fn.args.kwonlyargs, fn.args.kw_defaults) if isinstance(d, ast.Constant) and d.value is None}
         for n in ast.walk(fn):
             if isinstance(n, ast.BoolOp) and isinstance(n.op, ast.Or) and len(n.values) == 2 and isinstance(n.values[0], ast.Name) and n.values[0].id in params:
                 v = _truthy_const(repo, mod.name, n.values[1])
                 if v is not None:
                     out.append((qn, n, n.values[0].id, v))
+                elif n.values[0].id in none_default and isinstance(n.values[1], (ast.Attribute, ast.Call, ast.Name, ast.Subscript)) \
+                        and Folder(repo, mod.name).fold(n.values[1]) is Unknown:
+                    # the declared "missing" marker is None, the test is truthiness, and the replacement is a value of the object / a computed one:
+                    # an explicit False / 0 / b"" is replaced as well
+                    out.append((qn, n, n.values[0].id, _Expr(ast.unparse(n.values[1]))))
             elif isinstance(n, ast.IfExp) and isinstance(n.test, ast.Name) and n.test.id in params and isinstance(n.body, ast.Name) and n.body.id == n.test.id:
                 v = _truthy_const(repo, mod.name, n.orelse)
                 if v is not None:
@@ -53,8 +65,8 @@ def falsy_default_obligation(ctx, modnames, what):
         mod = ctx.repo.module(mn)
         looked += len(mod.functions)
         for qn, n, p, v in falsy_default_sites(ctx.repo, mod):
-            shown = hex(v) if isinstance(v, int) else repr(v)
-            out.append(ctx.bad("%s:%s" % (mn, qn), "`%s` replaces every falsy `%s` (0, b'', '') by %s, not only a missing one: %s" % (
+            shown = ("`%s`" % v) if isinstance(v, _Expr) else (hex(v) if isinstance(v, int) else repr(v))
+            out.append(ctx.bad("%s:%s" % (mn, qn), "`%s` replaces every falsy `%s` (False, 0, b'', '') by %s, not only a missing one: %s" % (
                 ast.unparse(n)[:70].split("\n")[0], p, shown, what), n, mod, key="falsy-default:%s:%s" % (qn, p)))
     if not out:
         out.append(ctx.ok("+".join(modnames) + ":*", "no parameter is defaulted by truthiness to a non-empty constant (%d functions inspected)" % looked, key="falsy-default"))
